@@ -519,11 +519,24 @@ def explore(system, data, cuts, check_purity=True, check_regions=True,
     return res
 
 
-def replay_path(system, data, path):
-    """Plain re-execution of one path (no explorer): returns the trace."""
+def _issue_queries(system, obj):
+    for i in system.inspectors(obj):
+        query_all(i)
+    if system.kind == 'wrapper':
+        wrapper_decision(obj)
+        wrapper_format(obj)
+
+
+def replay_path(system, data, path, queries=False):
+    """Plain re-execution of one path (no explorer): returns the trace.
+    queries=True re-issues the read-only queries after every step, exactly as
+    the explorer does in every state when purity checking is on (intermediate
+    queries are part of the schedule)."""
     obj = system.new(data)
     p = 0
-    trace = []
+    trace = [{'step': 'init', 'decision': system.decision(obj)}]
+    if queries:
+        _issue_queries(system, obj)
     for step in path:
         try:
             if step == 'e':
@@ -539,6 +552,8 @@ def replay_path(system, data, path):
             trace.append({'step': step, 'raised': type(e).__name__,
                           'msg': str(e)[:200]})
             return obj, trace
+        if queries:
+            _issue_queries(system, obj)
         trace.append({'step': step,
                       'regions': [
                           (i.NAME, n, r.offset, len(r.data), r.length)
